@@ -177,7 +177,9 @@ def lex_verbatim(data, i):
 
 
 def lex_text_block(data, i):
-    """data[i:i+3] == b'|||'. Lines are LF-terminated; a CR before the LF belongs to the line's content."""
+    """data[i:i+3] == b'|||'. Lines are LF-terminated; a CR before the LF belongs to the line's content.
+    This implementation's documented extension (ui-test text_block_crlf): a line consisting of CR LF alone is a blank line
+    wherever a blank line may stand, and contributes "\r\n"."""
     n = len(data)
     j = i + 3
     chomp = False
@@ -191,9 +193,13 @@ def lex_text_block(data, i):
     j += 1
     out = []
     # leading blank lines
-    while j < n and data[j] == ord("\n"):
-        out.append("\n")
-        j += 1
+    while j < n and (data[j] == ord("\n") or data[j:j + 2] == b"\r\n"):
+        if data[j] == ord("\n"):
+            out.append("\n")
+            j += 1
+        else:
+            out.append("\r\n")
+            j += 2
     k = j
     while k < n and data[k] in b" \t":
         k += 1
@@ -209,9 +215,13 @@ def lex_text_block(data, i):
         out.append(lossy(data[j:e + 1]))
         j = e + 1
         # blank lines
-        while j < n and data[j] == ord("\n"):
-            out.append("\n")
-            j += 1
+        while j < n and (data[j] == ord("\n") or data[j:j + 2] == b"\r\n"):
+            if data[j] == ord("\n"):
+                out.append("\n")
+                j += 1
+            else:
+                out.append("\r\n")
+                j += 2
         if data[j:j + len(prefix)] == prefix:
             continue
         k = j
